@@ -96,7 +96,26 @@ def run(ctx):
             # one-shot inputs have their own cause class
             ctx.violate(f"C15/count/{kind}/{'one-shot-input' if form == 'iterator' else 'list-input'}/{'over' if len(out) > k else 'under'}",
                         f"step {desc} given {n} individuals as a {form} and asked for {k} yielded {len(out)}")
+            return
         ctx.stat("steps_counted")
+        # history (F13): the SAME step object applied again to another population and another requested size
+        if H.draw(2):
+            n2 = 2 + H.draw(23)
+            k2 = 1 + H.draw(n2)
+            members2 = [Individual(rep.create_genotype(rnd), rep) for _ in range(n2)]
+            ctx.faults["carry_over"] += 1
+            try:
+                out2 = apply_counted(ctx, step, desc, members2, k2, "list", problem, evaluator, rep, rnd, multi)
+            except Exception as e:
+                from ..world import short_tb
+
+                ctx.violate(f"C15/exception/{shape_of(desc) if not leaf_or_simple(desc) else desc[0]}/reused-step-object/{type(e).__name__}",
+                            f"step {desc} applied a second time ({n2} individuals, asked for {k2}) raised {short_tb(e)}")
+                return
+            if len(out2) != k2:
+                kind = desc[0] if leaf_or_simple(desc) else shape_of(desc)
+                ctx.violate(f"C15/count/{kind}/reused-step-object/{'over' if len(out2) > k2 else 'under'}",
+                            f"step {desc}, first asked for {k} of {n}, then applied again to {n2} individuals and asked for {k2}, yielded {len(out2)}")
         return
     if mode == "init":
         run_init(ctx, H, rnd, problem)
